@@ -10,7 +10,7 @@ open TmVerif.Proto TmVerif.Diff
 * `lcsx a b`             → `d:i:e;d:i:e…` | `fatal`            exact mirror of `lcs`
 * `lcs a b chunks`       → `ok <cost>` | `bad <why>`           verdict on the chunks the Go `lcs` returned:
                             they transform `a` into `b` and their cost is `|a|+|b|-2·dpLcs a b`
-* `ld left right text`   → `<hex of the mirror's rendering> applies=<0|1> empty=<0|1>`
+* `ld left right text`   → `<hex of the mirror's rendering> applies=<0|1> empty=<0|1> minimal=<0|1>`
                             (texts as hex of ASCII bytes; `applies`: the verified applier run on the
                             Go output `text` reproduces `right`)
 * `ldr left right`        → hex of the mirror's rendering (inputs with runs of more than 14 changed lines)
@@ -54,10 +54,23 @@ def midVerdict (a b : List Int) (ai bi snake : Nat) : Except String Unit :=
 
 def b01 (b : Bool) : String := if b then "1" else "0"
 
-/-- verdict on a rendered diff: does it apply, is it empty -/
+/-- number of '-' and '+' lines of a rendered diff -/
+def patchChanges (text : List Char) : Option Nat :=
+  (parsePatch text).map fun hs =>
+    hs.foldl (fun acc h => acc + (h.body.filter fun p => p.1 != ' ').length) 0
+
+/-- the minimum number of changed lines between two texts (verified DP reference) -/
+def minChanges (left right : List Char) : Nat :=
+  let a := splitLines left
+  let b := splitLines right
+  a.length + b.length - 2 * dpLcs a b
+
+/-- verdict on a rendered diff: does it apply, is it empty, does it show the minimum number of
+changed lines -/
 def ldVerdict (left right text : List Char) : String :=
   let applies := applyPatch text left == some right
-  s!"applies={b01 applies} empty={b01 text.isEmpty}"
+  let minimal := patchChanges text == some (minChanges left right)
+  s!"applies={b01 applies} empty={b01 text.isEmpty} minimal={b01 minimal}"
 
 def parseTriple (s : String) : Option (Nat × Nat × Nat) :=
   match s.splitOn "," with
@@ -132,6 +145,8 @@ def handle (args : List String) : Option String :=
       let l ← parseText l; let r ← parseText r; let t ← parseText t
       if t.isEmpty != (l == r) then some "violates: the diff is empty but the texts differ (or the converse)"
       else if applyPatch t l != some r then some "violates: the hunks do not apply to the first text to produce the second"
+      else if patchChanges t != some (minChanges l r) then
+        some s!"violates: the diff shows {(patchChanges t).getD 0} changed lines but the minimum is {minChanges l r}"
       else some "holds"
     | _ => none
   | _ => none
